@@ -11,11 +11,11 @@ import (
 )
 
 type acceptedConn struct {
-	fd     int
-	remote netip.AddrPort
-	isn    uint32
-	at     time.Duration
-	synack int // packet id, -1 when never sent
+	fd         int
+	remote     netip.AddrPort
+	isn        uint32
+	at         time.Duration
+	synack     int // packet id, -1 when never sent
 	unexpected bool
 }
 
